@@ -11,9 +11,8 @@ let kv_of hdr key dflt =
   | Some t -> Stdlib.String.sub t n (Stdlib.String.length t - n)
   | None -> dflt
 
-let val_str v = match v with None -> "~" | Some b -> render b
-
-let entry_str (e : sentry) = Printf.sprintf "%s %s %s" (render e.sk) (n_to_string e.sseq) (val_str e.sval)
+let render = Drv_c11b.render
+let entry_str = Drv_c11b.entry_str
 
 let cur_str tb it = match ti_cur tb it with Some e -> entry_str e | None -> "-"
 
@@ -27,10 +26,24 @@ let run (id : string) (hdr : string list) (lines : string list list) (out : stri
                                  sval = (if v = "~" then None else Some (bytes_of_token v)) }
       | _ -> None) lines in
   let ops = Stdlib.List.filter (fun l -> match l with "e" :: _ -> false | _ -> true) lines in
-  (* any filter without false negatives gives the same observable Get (theorem C11_get) *)
-  let tb = write (fun _ _ -> true) bloom es in
-  let have = es <> [] in
-  if have then pr "W ok";
+  let guard = kv_of hdr "guard" "ok" in
+  let prist = if es = [] then None else Drv_c11b.pristine id bloom es in
+  let written = prist <> None in
+  if es <> [] then pr (if written then "W ok" else "W err unshared");
+  (* inside the guards: the logical table of SSTable.v (any filter without false negatives gives
+     the same observable Get, theorem C11_get); outside: the view of the encoded bytes *)
+  let opened =
+    if not written then None
+    else if guard = "ok" then Some (write (fun _ _ -> true) bloom es)
+    else match prist with
+      | Some p -> (match SSTFile.read_file p.Drv_c11b.bytes with
+          | Datatypes.Coq_inl t -> Some t
+          | Datatypes.Coq_inr e ->
+            let s = Drv_c11b.oerr_str e in
+            pr ("O err " ^ Stdlib.String.sub s 4 (Stdlib.String.length s - 4)); None)
+      | None -> None in
+  let have = opened <> None in
+  let tb = match opened with Some t -> t | None -> write (fun _ _ -> true) bloom es in
   let probes = Drv_c11b.probes_of lines in
   let adapter = ref false in
   let err_str (i : titer) = if !adapter then "-" else string_of_int (b01 i.ti_err) in
